@@ -24,8 +24,13 @@ TRUSTED = ["Coq 8.16.1 kernel, vm_compute for the correspondence evaluation",
 CASE_IMPORTS = [("PW.model", "M_rodrigues"), ("PW.model", "M_affine"), ("PW.model", "M_rotation")]
 ASSUMPTIONS = ["theorems are about exact real arithmetic; binary64 rounding is covered only by the tolerance of the "
                "correspondence check on sampled inputs",
-               "compose_left_to_right is stated for matrices with last row (0,0,0,1): apply_transform drops w without "
-               "dividing, so for projective matrices the sequential reading is not what the code computes"]
+               "known finding compose_non_affine: the compose clause holds when every matrix that is followed by another "
+               "has last row (0,0,0,1) (C11_compose_left_to_right_partial) and fails otherwise "
+               "(C11_compose_projective_refuted): apply_transform drops w without dividing",
+               "the binary64 value of pi used by np.radians differs from PI by < 1.3e-16 (not proved in Coq)"]
+
+DEFINITIONAL = ["C11_euler_deg_pi_constant_gap", "C11_apply_point_is_mapply", "C11_apply_w1_w0", "C11_apply_stack_is_rowwise",
+                "C11_apply_discard_z_only_drops_z", "C11_compose_two", "C11_compose_nil_identity"]
 
 AXES = {"x": "AX", "y": "AY", "z": "AZ"}
 PI_F = Fr(math.pi)
@@ -233,8 +238,46 @@ def _quat_rotation(rng):
     return [[x / n for x in row] for row in R]
 
 
+def _near_collinear(rng, tier):
+    """up/look pair whose directions differ by 1e-6 .. 1e-2 rad (the ill-conditioned end of the property's domain)"""
+    while True:
+        up = grid_vec(rng)
+        perp = np.cross(up, grid_vec(rng))
+        if np.linalg.norm(up) > 0 and np.linalg.norm(perp) > 0:
+            break
+    ang = 10.0 ** rng.uniform(-5.7, -2.0)
+    c = rng.choice([1.0, 2.5, -1.0, -0.75])  # also the anti-parallel side
+    look = [c * u + abs(c) * ang * np.linalg.norm(up) / np.linalg.norm(perp) * q_ for u, q_ in zip(up, perp)]
+    s1, s2 = _scale(rng, tier), _scale(rng, tier)
+    return [x * s1 for x in up], [x * s2 for x in look]
+
+
+def _sin_angle(up, look):
+    """exact |up x look|^2 / (|up|^2 |look|^2) as a Fraction"""
+    u, l = _F(up), _F(look)
+    cr = [u[1] * l[2] - u[2] * l[1], u[2] * l[0] - u[0] * l[2], u[0] * l[1] - u[1] * l[0]]
+    return sum(x * x for x in cr) / (sum(x * x for x in u) * sum(x * x for x in l))
+
+
+def _up_look_tol(c):
+    """1e-9, amplified by 1/sin(angle) below 1e-5 (Gram-Schmidt loses that many digits): 1e-14 / sin(angle)"""
+    s2 = _sin_angle(c["up"], c["look"])
+    sin = Fr(math.isqrt(int(s2 * 10 ** 40)), 10 ** 20)
+    if sin == 0:
+        return Fr(1)
+    return max(Fr(1, 10 ** 9), Fr(1, 10 ** 14) / sin)
+
+
 def gen_cases(rng, n, tier):
     cases = []
+    # every three-letter axis order once per run (all 27), alternating units
+    for i, order in enumerate(a + b + c_ for a in "xyz" for b in "xyz" for c_ in "xyz"):
+        deg = i % 2 == 0
+        cases.append({"kind": "euler_order_sweep", "deg": deg, "order": order, "scalar": False,
+                      "angles": [rng.uniform(-720, 720) if deg else rng.uniform(-7, 7) for _ in range(3)]})
+    for _ in range(12 if tier == "quick" else 200):
+        up, look = _near_collinear(rng, tier)
+        cases.append({"kind": "up_look_near_collinear", "up": up, "look": look})
     for _ in range(n):
         u = rng.random()
         if u < 0.16:
@@ -324,8 +367,10 @@ def gen_cases(rng, n, tier):
                           "discard": rng.random() < 0.35, "asvec": rng.random() < 0.35, "int": as_int})
         else:
             k = rng.choice([0, 1, 2, 2, 3, 3, 4, 5])
-            cases.append({"kind": "compose", "ms": [_grid_m4(rng, rng.random() < 0.6) for _ in range(k)],
-                          "p": grid_vec(rng)})
+            ms = [_grid_m4(rng, rng.random() < 0.6) for _ in range(k)]
+            if k >= 2 and rng.random() < 0.3:  # affine everywhere except the LAST matrix: the sequential reading must hold
+                ms = [_grid_m4(rng, True) for _ in range(k - 1)] + [_grid_m4(rng, False)]
+            cases.append({"kind": "compose", "ms": ms, "p": grid_vec(rng)})
     return cases
 
 
@@ -433,6 +478,8 @@ def coq_case(c, o):
             return "CEuler false [] [] [FNan]"
         order = coq_list(AXES.get(ch, "AOther") for ch in c["order"])
         return "CEuler %s %s %s %s" % (coq_bool(c["deg"]), coq_list(q(a) for a in c["angles"]), order, flv(o["m"]))
+    if kind == "up_look_near_collinear":
+        return "CUpLookTol %s %s %s %s" % (q(_up_look_tol(c)), qv(c["up"]), qv(c["look"]), _res(o, lambda o: flv(o["m"])))
     if kind.startswith("up_look"):
         return "CUpLook %s %s %s" % (qv(c["up"]), qv(c["look"]), _res(o, lambda o: flv(o["m"])))
     if kind in ("rotation_matrix", "rotation_any_matrix"):
@@ -508,10 +555,11 @@ def _apply(m, p, w=1):
 TOL = Fr(1, 10 ** 9)
 
 
-def _proper(m, what):
-    if not _near_I(_mm(m, _tr(m)), TOL):
+def _proper(m, what, tol=None):
+    tol = TOL if tol is None else tol
+    if not _near_I(_mm(m, _tr(m)), tol):
         return "%s: R R^T is not the identity" % what
-    if abs(_det3(m) - 1) > TOL:
+    if abs(_det3(m) - 1) > tol:
         return "%s: determinant is %s, not +1" % (what, float(_det3(m)))
     return None
 
@@ -574,7 +622,8 @@ def oracle(c, o):
         return None if (raised and o["raise"] == "ValueError") else "zero-length up/look not rejected with ValueError"
     if kind == "up_look_collinear":
         return None  # outside the property's domain (directions differ by less than 1e-6 rad)
-    if kind == "up_look":
+    if kind in ("up_look", "up_look_near_collinear"):
+        TOLU = _up_look_tol(c)
         if raised:
             return "rotation_from_up_and_look raised %s on a valid pair" % o["raise"]
         if o["shape"] != [3, 3] or o["dtype"] != "float64":
@@ -582,7 +631,7 @@ def oracle(c, o):
         if not o["args_unchanged"]:
             return "rotation_from_up_and_look modified its arguments"
         m = _mat(o["m"], 3)
-        f = _proper(m, "rotation_from_up_and_look")
+        f = _proper(m, "rotation_from_up_and_look", TOLU)
         if f:
             return f
         up, look = _F(c["up"]), _F(c["look"])
@@ -590,9 +639,9 @@ def oracle(c, o):
         rl = [sum(m[i][k] * look[k] for k in range(3)) for i in range(3)]
         nu = max(abs(x) for x in up)
         nl = max(abs(x) for x in look)
-        if abs(ru[0]) > TOL * nu or abs(ru[2]) > TOL * nu or ru[1] <= 0:
+        if abs(ru[0]) > TOLU * nu or abs(ru[2]) > TOLU * nu or ru[1] <= 0:
             return "up is not taken to +y: R up = %r" % [float(x) for x in ru]
-        if abs(rl[0]) > TOL * nl or rl[2] <= 0:
+        if abs(rl[0]) > TOLU * nl or rl[2] <= 0:
             return "look is not taken into the y-z half-plane with positive z: R look = %r" % [float(x) for x in rl]
         return None
     if raised and kind not in ("scale_non_uniform", "scale_uniform"):
@@ -682,11 +731,18 @@ def oracle(c, o):
             want = _mm(x, want)
         if m != want:
             return "compose_transforms is not the left-to-right product"
-        if all(x[3] == [0, 0, 0, 1] for x in ms) and _F(o["applied"]) != _F(o["sequential"]):
-            return "applying compose(A, B, ...) differs from applying A, then B, ..."
+        # the property text, for ALL 4x4 matrices (no affinity filter): see classify() / known_findings/C11.json
+        if _F(o["applied"]) != _F(o["sequential"]):
+            return "applying compose(A, B, ...) differs from applying A, then B, ...: %r vs %r" % (o["applied"], o["sequential"])
         return None
     return None
 
 
 def classify(c, o, failure, disagrees):
+    """known finding compose_non_affine: compose_transforms + apply_transform on a list in which a matrix that is followed
+    by another one is not affine (last row != (0,0,0,1)); only the sequential-application clause, only when the
+    model agrees with the implementation"""
+    if (c.get("kind") == "compose" and failure and failure.startswith("applying compose(A, B, ...) differs")
+            and not disagrees and any(list(m[3]) != [0.0, 0.0, 0.0, 1.0] for m in c["ms"][:-1])):
+        return "compose_non_affine"
     return None
